@@ -144,6 +144,11 @@ impl<P: MNT4Config> MNT4<P> {
         // code below gets executed for all bits (EXCEPT the MSB itself) of
         // mnt6_param_p (skipping leading zeros) in MSB to LSB order
         let y_over_twist_neg = -q.y_over_twist;
+        // an empty coefficient list stands for the point at infinity of G2 (see
+        // `G2Prepared::from`): its pairing with anything is trivial
+        if q.double_coefficients.is_empty() {
+            return f;
+        }
         assert_eq!(P::ATE_LOOP_COUNT.len() - 1, q.double_coefficients.len());
         for (bit, dc) in P::ATE_LOOP_COUNT.iter().skip(1).zip(&q.double_coefficients) {
             let g_rr_at_p = Fp4::new(
